@@ -9,7 +9,7 @@ for id in $ids; do
   p=seeded/$id/patch.diff
   [ -f "$p" ] || continue
   if ! git -C /repo diff --quiet; then echo "/repo has uncommitted tracked changes; refusing"; exit 2; fi
-  funcs=$(grep -o '^@@.*@@ func [^{]*' $p | sed -E 's/^@@.*@@ func (\([^)]*\) )?([A-Za-z0-9_]+).*/\2/' | sort -u)
+  funcs=$( (grep -o '^@@.*@@ func [^{]*' $p | sed -E 's/^@@.*@@ func (\([^)]*\) )?([A-Za-z0-9_]+).*/\2/'; grep -E '^[ +-]func ' $p | sed -E 's/^[ +-]func (\([^)]*\) )?([A-Za-z0-9_]+).*/\2/') | sort -u)
   git -C /repo apply /verif/$p || { echo "$id: patch does not apply"; continue; }
   res=""
   for f in $funcs; do
